@@ -15,6 +15,7 @@ from pyvc.speclib import (AND, OR, NOT, IMPLIES, IFF, ITE, EQ, IS_NONE, VAL, ISI
 from pyvc import speclib
 from pyvc import settheory as st
 from pyvc.settheory import (modset, padset, sumset, kfold_s, rangefold, singleton, SETEQ, MEM, SMIN, SMAX, WFSET, ALIGNED)
+from .common import BLS_IFACE_RAISES
 from .common import (VersionK, SERIALIZABLE, COMPOSITE, SERVICE, DELIMITED, PRIMITIVE, VOID_T, UNSIGNED_T, ATTRIBUTE, FIELD, PADDING,
                      CASTMODE, TRUNCATED, cast_mode_ord, POW2)
 from .c01 import D, BLS
@@ -309,7 +310,7 @@ class _BlsIface:
     returns = ObjOf(BLS)
     verify = False
     assumed = "interface contract; every override is obligated to the same clause below"
-    raises = {"TypeError": lambda s: ISINST(s.self, "ServiceType")}
+    raises = {"TypeError": BLS_IFACE_RAISES}  # shared with the projections stated in c13_types.py / c18.py
 
     def post(s):
         return {"denotes-L": SETEQ(D(s.result), L(s.self))}
